@@ -1,5 +1,6 @@
 import RaftVerif.Core.Model
 import RaftVerif.Proofs.AELog
+import RaftVerif.Proofs.AECommit
 /-! # The AppendEntries merge of the cluster model is the merge that is stepped against the code
 
 `RP.handleAE` (Core/Model.lean) works on a log that is a plain list, position = index, and replaces
@@ -407,5 +408,64 @@ example :
     let a : AEReq := ⟨12, 2, 3, 1, 1, 0, [e 2 1, e 3 3, e 4 3]⟩
     (exec (aePlan ⟨false, false, 3, 3, false⟩ d v a) none none).2 = [.deleteRange 3 3, .storeLogs [e 3 3, e 4 3]] ∧
     mergeIdx [e 2 1, e 3 2] a.entries = [e 2 1, e 3 3, e 4 3] := by decide
+
+end SV
+
+namespace SV
+
+theorem aeLastCovered_contig (a : AEReq) (h : Contig (a.prevIdx + 1) a.entries) :
+    aeLastCovered a = a.prevIdx + a.entries.length := by
+  unfold aeLastCovered
+  cases hl : a.entries.getLast? with
+  | none =>
+    have : a.entries = [] := by simpa [List.getLast?_eq_none_iff] using hl
+    simp [this]
+  | some e =>
+    simp only []
+    rw [List.getLast?_eq_getElem?] at hl
+    have hne : a.entries.length ≠ 0 := by
+      intro h0
+      have : a.entries = [] := List.eq_nil_of_length_eq_zero h0
+      simp [this] at hl
+    have hk : a.entries.length - 1 < a.entries.length := by omega
+    rw [List.getElem?_eq_getElem hk] at hl
+    simp only [Option.some.injEq] at hl
+    have := h (a.entries.length - 1) hk
+    rw [hl] at this
+    omega
+
+/-- **Refinement, AppendEntries: the commit index.**  Under the same hypotheses, when the stepped
+    handler answers success the commit index it reports is the one `RP.handleAE` computes,
+    `max old (min LeaderCommitIndex (prev + number of entries))`. -/
+theorem ae_refines_core_commit (absE : Entry → RP.Entry) (cf : Cfg) (d : Durable) (v : Vol) (a : AEReq) (nd : RP.Node)
+    (hents : Contig (a.prevIdx + 1) a.entries) (hcommit : nd.commit = v.commit)
+    (hs : isSuccess (aePlan cf d v a).final.resp = true)
+    (hout : (RP.handleAE nd a.term a.prevIdx a.prevTerm (a.entries.map absE) a.commit 1).2 = true) :
+    (aePlan cf d v a).final.vol.commit =
+      (RP.handleAE nd a.term a.prevIdx a.prevTerm (a.entries.map absE) a.commit 1).1.commit := by
+  rw [ae_commit_exact cf d v a hs, aeLastCovered_contig a hents]
+  have key : ∀ (es : List RP.Entry), (RP.handleAE nd a.term a.prevIdx a.prevTerm es a.commit 1).2 = true →
+      (RP.handleAE nd a.term a.prevIdx a.prevTerm es a.commit 1).1.commit = max nd.commit (min a.commit (a.prevIdx + es.length)) := by
+    intro es ho
+    unfold RP.handleAE at ho ⊢
+    by_cases h1 : a.term < nd.term
+    · simp [h1] at ho
+    · simp only [h1, if_false] at ho ⊢
+      by_cases hd : nd.term < a.term ∨ nd.role ≠ .follower
+      · simp only [hd, if_true] at ho ⊢
+        by_cases h2 : a.prevIdx < nd.base
+        · simp [h2] at ho
+        · simp only [h2, if_false] at ho ⊢
+          split at ho
+          · simp at ho
+          · rename_i h3; rw [if_neg h3]
+      · simp only [hd, if_false] at ho ⊢
+        by_cases h2 : a.prevIdx < nd.base
+        · simp [h2] at ho
+        · simp only [h2, if_false] at ho ⊢
+          split at ho
+          · simp at ho
+          · rename_i h3; rw [if_neg h3]
+  rw [key _ hout, hcommit, List.length_map]
 
 end SV
